@@ -344,6 +344,8 @@ impl Work<Context, AnyWorkId, Error> for ColrWork {
             .variant(FeWorkId::PaintGraph)
             .variant(FeWorkId::ColorPalettes)
             .variant(WorkId::ALL_GLYF_FRAGMENTS)
+            // composite bboxes are only final once glyf/loca has been built
+            .variant(WorkId::Glyf)
             .specific_instance(FeWorkId::GlyphOrder)
             .specific_instance(FeWorkId::StaticMetadata)
             .build()
